@@ -226,6 +226,16 @@ func protoShapes() []*fuzzInput {
 		add("post-native-line-"+strconv.Itoa(i), wire.HTTPPost, "POST / HTTP/1.1\r\nContent-Length: "+strconv.Itoa(len(line))+"\r\n\r\n"+line)
 		add("native-line-"+strconv.Itoa(i), wire.Native, "$"+strconv.Itoa(len(line))+" "+line+"\r\n")
 	}
+	// script results that refer to themselves; deeply nested values; both must be answered, not crash
+	add("eval-return-G", wire.RESP, string(wire.EncodeRESP("EVAL", "return _G", "0")))
+	add("eval-return-self-table", wire.RESP, string(wire.EncodeRESP("EVAL", "local t = {} t[1] = t return t", "0")))
+	add("evalro-return-self-map", wire.RESP, string(wire.EncodeRESP("EVALRO", "local t = {} t.x = t return t", "0")))
+	add("eval-return-deep-table", wire.RESP, string(wire.EncodeRESP("EVAL", "local t = {} local r = t for i = 1, 200000 do local n = {} t[1] = n t = n end return r", "0")))
+	add("field-deep-brackets", wire.RESP, string(wire.EncodeRESP("SET", "deepk", "a", "FIELD", "f", strings.Repeat("[", 8000000), "POINT", "1", "1")))
+	add("fset-deep-braces", wire.RESP, string(wire.EncodeRESP("FSET", "fleet", "truck1", "f", strings.Repeat(`{"a":`, 200000))))
+	add("where-deep-brackets", wire.RESP, string(wire.EncodeRESP("SCAN", "fleet", "WHEREIN", "f", "1", strings.Repeat("[", 1000000), "IDS")))
+	add("set-string-deep-brackets", wire.RESP, string(wire.EncodeRESP("SET", "deepk", "s", "STRING", strings.Repeat("[", 1000000))))
+	add("jset-deep-brackets", wire.RESP, string(wire.EncodeRESP("JSET", "deepk", "j", "p", strings.Repeat("[", 1000000), "RAW")))
 	add("known-line-within-line", wire.RESP, string(wire.EncodeRESP("TEST", "OBJECT", `{"type":"LineString","coordinates":[[0,0],[1,0],[1,1]]}`, "WITHIN", "OBJECT", `{"type":"LineString","coordinates":[[0,0],[1,0],[2,0]]}`)))
 	add("known-jset-balloon", wire.RESP, "*5\r\n$4\r\nJSET\r\n$7\r\nballoon\r\n$3\r\ndoc\r\n$9\r\n999999999\r\n$1\r\n1\r\n")
 	add("http-no-path", wire.HTTPGet, "GET  HTTP/1.1\r\n\r\n")
